@@ -337,6 +337,13 @@ def Pool.markExecuted (s : Pool) (receipts : List Nat) (txs : List Tx) (evicted 
   match s.markExecutedZ (receipts.map (fun h => (h, 1))) txs evicted none with
   | (s', _, r) => (s', r != .ok)
 
+/-- `MarkExecuted` when the end-of-block `batch.Write()` *returns an error* (store closed, disk full): the code
+drops the error (generated fact `droppedErrors`), resets the batch and carries on with the removal. Modelled from
+the source; there is no injection point on the real pool without a further hook, so the tie is the fact only. -/
+def Pool.markExecutedWriteError (s : Pool) (rs : List (Nat × Nat)) (txs : List Tx) (evicted : List Nat) : Pool :=
+  match markLoop txs none rs 0 [] s with
+  | (s1, _, _) => ((({ s1 with batch := [] } : Pool)).evictAll evicted).removeHashes (rs.map (·.1) ++ evicted)
+
 def Pool.delExec (s : Pool) (h : Nat) : Pool := { s with executed := execDel s.executed h }
 
 /-- `TxPool.UnMarkExecuted(block)`: `txs` = `block.Transactions`, `evicted` = `header.EvictedTxs`. -/
